@@ -37,7 +37,8 @@
 (*   counted a message: raise / return 0 / timeout) | "adjust_notify_one"            *)
 (*   (_window_adjust wakes one waiter) | "set_closed_no_notify" (_set_closed wakes   *)
 (*   nobody: transport loss leaves parked writers asleep) | "wait_full_message"      *)
-(*   (the sender waits until the window covers the whole next message)               *)
+(*   (the sender waits until the window covers the whole next message) |             *)
+(*   "open_limit_shadowed" (the accepting side ignores the opener's max packet size)  *)
 EXTENDS Integers, Sequences, FiniteSets, TLC
 
 CONSTANTS UsersA, UsersB,   \* user threads of each side (strings)
@@ -139,7 +140,11 @@ NoLast == [op |-> "none", out |-> "none", left |-> 0, shut |-> FALSE, rel |-> FA
 
 InitPar ==
   /\ win = [X \in Sides |-> W0] /\ thresh = [X \in Sides |-> Thresh]
-  /\ maxpkt = [X \in Sides |-> MaxPkt] /\ peermax = [X \in Sides |-> PeerMax]
+  \* side "A" opened the channel: A's sending limits come from B's OPEN_CONFIRMATION, B's from A's CHANNEL_OPEN.
+  \* Mut = "open_limit_shadowed": the side that ACCEPTED the channel keeps its own (larger) maximum packet size instead of
+  \* the one announced in the peer's CHANNEL_OPEN
+  /\ maxpkt = [X \in Sides |-> IF Mut = "open_limit_shadowed" /\ X = "B" THEN MaxPkt + 1 ELSE MaxPkt]
+  /\ peermax = [X \in Sides |-> PeerMax]
   /\ tmo \in [Sides -> Modes]
 InitRest ==
   /\ outwin = [X \in Sides |-> win[Peer(X)]] /\ granted = [X \in Sides |-> win[Peer(X)]]
